@@ -13,7 +13,7 @@
 EXTENDS Naturals, Sequences, FiniteSets, TLC, Json
 CONSTANT Variant      \* "none" | "OverrunByOne" | "SwapPwSalt" | "TruncatedCopy"
 
-PwLens   == {0, 1, 7, 64, 65}
+PwLens   == {0, 1, 7, 63, 64, 65}      \* around the HMAC block size
 SaltLens == {0, 3, 16, 33}
 Ns       == {2, 4, 16, 1024}
 Rs       == {1, 2, 4}
